@@ -33,7 +33,7 @@ def generate(seed, tier):
     rec = _hist.generate_hist(
         ID, seed,
         gen_kwargs={"ntx": (1, 5), "maxops": (60 if big else 8), "p_iofault": 0.0, "p_raise": 0.02, "p_cancel": 0.03,
-                    "p_restart": 0.3, "p_delete": r.choice((0.0, 0.15, 0.3)),
+                    "p_restart": 0.3, "p_delete": r.choice((0.0, 0.15, 0.3)), "p_bad_add": 0.06,
                     "merges": ("none", "none", "default", "optimize", "custom")},
         cfg_kwargs={"want": want}, nkeys=(400 if big else 12))
     rec["copy_to_ram"] = r.random() < 0.5
